@@ -93,7 +93,7 @@ func unprotLine(k *saKeys, role message.Role, withHdr bool, b []byte) string {
 func propC01(c *Ctx) {
 	g := NewGen(c.seed)
 	s := c.suite("protect-unprotect-roundtrip", "oracle",
-		"structured messages of the encodable domain (incl. empty payload list) x 9 suites x both sender roles x random keys/IV/padding: EncodeEncrypt then DecodeDecrypt by the opposite role, header not supplied and header pre-parsed; non-trivial = >= 1 payload; distinct by (suite, role, keys, message)")
+		"structured messages of the encodable domain (incl. empty payload list) x 9 suites x both sender roles x random keys/IV/padding: EncodeEncrypt then DecodeDecrypt by the opposite role, header not supplied and header pre-parsed; sender and receivers are separate long-lived objects (5 messages each) alternating with fresh ones, and between messages the long-lived objects are fed input they reject (correct checksum over a missing / short IV, empty or misaligned ciphertext, impossible pad length, undecodable inner chain; tampered; truncated); non-trivial = >= 1 payload; distinct by (suite, role, keys, message)")
 	sn := c.suite("no-key-paths", "oracle",
 		"EncodeEncrypt/DecodeDecrypt with nil SA keys must equal plain Encode/Decode, including messages with zero payloads; non-trivial = >= 1 payload")
 	var corr []corrCase
@@ -116,6 +116,9 @@ func propC01(c *Ctx) {
 				}
 				rnd := g.keyBytesRandom(32)
 				idx++
+				if i%5 == 2 || i%5 == 4 { // traffic the long-lived objects reject, between two genuine messages
+					c01Noise(g, k, lsa, role)
+				}
 				c.c01Case(s, k, lsa, role, sx, rnd, idx, &corr)
 			}
 		}
@@ -132,6 +135,26 @@ func propC01(c *Ctx) {
 	sc := c.suite("protect-model-vs-impl", "correspondence",
 		"same cases: bytes produced by Go EncodeEncrypt under an injected random stream must equal the Lean model's protect output, and unprotect outcomes must agree; non-trivial = >= 1 payload")
 	c.correspond(sc, corr)
+}
+
+// what a receiver sees between genuine messages: authentic-but-malformed, tampered, truncated and foreign
+// input, presented to the long-lived objects (outcomes are C02's / C04's business; here they are history)
+func c01Noise(g *Gen, k *saKeys, lsa *longSA, role message.Role) {
+	var noise [][]byte
+	for i := 0; i < 2; i++ {
+		b, _ := g.authMalformed(k, role)
+		noise = append(noise, b)
+	}
+	t := append([]byte{}, noise[0]...)
+	t[g.r.Intn(len(t))] ^= 0x40
+	noise = append(noise, t, noise[1][:g.r.Intn(len(noise[1]))])
+	for hi, peer := range lsa.peers {
+		for _, b := range noise {
+			guard(func() (string, error) { unprotect(peer, b, !role, hi == 1 && len(b) >= 28); return "", nil })
+		}
+	}
+	b, _ := g.authMalformed(k, !role) // and the sending object receives one in its own receive direction
+	guard(func() (string, error) { unprotect(lsa.sender, b, role, false); return "", nil })
 }
 
 // SA objects that live across several messages of one (suite, role, keys) group
@@ -212,7 +235,7 @@ func (c *Ctx) c01NoKey(s *SuiteStat, sx *Sx, idx int) {
 func propC02(c *Ctx) {
 	g := NewGen(c.seed)
 	s := c.suite("tamper", "oracle",
-		"per protected message (9 suites x both roles): every single-bit flip (exhaustive), every proper prefix, extensions by 1..32 octets, random multi-octet edits, header/body splices of two messages under the same keys, unrelated keys, reflection to the sender's own role; SK bodies shorter than the checksum; spy ciphers count Decrypt calls; non-trivial = protected message with >= 1 inner payload; distinct by altered datagram")
+		"per protected message (9 suites x both roles): every single-bit flip (exhaustive), every pair of bit flips within the checksum field (exhaustive), every proper prefix, extensions by 1..32 octets, random multi-octet edits, header/body splices of two messages under the same keys, unrelated keys, reflection to the sender's own role; SK bodies shorter than the checksum; spy ciphers count Decrypt calls; non-trivial = protected message with >= 1 inner payload; distinct by altered datagram")
 	var corr []corrCase
 	perSuite := c.n(2, 40)
 	idx := 0
@@ -306,6 +329,20 @@ func (c *Ctx) c02Case(s *SuiteStat, g *Gen, k *saKeys, sender message.Role, sx, 
 			chk(alt, "bitflip", (p*8+b)%29 == 0)
 		}
 	}
+	// every pair of bit flips inside the checksum field (an edit the comparison must not let cancel out),
+	// and every pair of one checksum bit with one bit of the last ciphertext block
+	icv := refIntegOutLen[k.st.i]
+	if icv <= len(m1) {
+		base := len(m1) - icv
+		for a := 0; a < icv*8; a++ {
+			for b := a + 1; b < icv*8; b++ {
+				alt := append([]byte{}, m1...)
+				alt[base+a/8] ^= 1 << uint(a%8)
+				alt[base+b/8] ^= 1 << uint(b%8)
+				chk(alt, "icv-bitpair", (a*131+b)%997 == 0)
+			}
+		}
+	}
 	// every proper prefix
 	for l := 0; l < len(m1); l++ {
 		chk(m1[:l], "prefix", l%7 == 0)
@@ -341,7 +378,7 @@ func (c *Ctx) c02Case(s *SuiteStat, g *Gen, k *saKeys, sender message.Role, sx, 
 	}
 	// unrelated keys
 	for i := 0; i < 3; i++ {
-		k2 := g.saKeys(k.st)
+		k2 := g.saKeysUnrelated(k)
 		sa2 := newSA(k2)
 		si2, sr2 := installSpies(sa2)
 		*idx++
